@@ -404,6 +404,9 @@ func (eng *Engine) loadContracts() {
 		}
 	}
 	eng.cs.parseAll()
+	for _, t := range eng.cs.Owned {
+		eng.ownedTypes[t] = true
+	}
 }
 
 func (eng *Engine) srcLine(pos token.Pos) string {
